@@ -16,4 +16,11 @@ theorem threshold_shape_tie : (Generated.C09.scanThresholdShape && Generated.C09
 theorem drain_shape_tie : (Generated.C09.mergeDrainsHeap && Generated.C09.mergeSyncDrainsHeap &&
     Generated.C09.mergePerScannerBatch) = true := rfl
 
+theorem trace_batch_tie : Generated.C09.defaultTraceBatchSize = C09.defaultTraceBatchSize := rfl
+/-- the merge heap of `newSIDXStreamRunner` and `sidx.extractOrdering` both treat everything except DESC as
+    ascending (`C09.SortDir.ascending` is used for both in the model) -/
+theorem trace_direction_shape_tie : (Generated.C09.traceMergeDirectionShape && Generated.C09.sidxOrderingShape) = true := rfl
+/-- the accumulation loop of the stream row-path `limit.Execute` runs until `limit+offset` rows (`C09.limitLoop`) -/
+theorem stream_limit_shape_tie : Generated.C09.streamLimitLoopShape = true := rfl
+
 end Banyan.Tie.C09
